@@ -2,6 +2,7 @@ package fleet
 
 import (
 	"context"
+	"errors"
 	"fmt"
 	"sort"
 	"strings"
@@ -66,6 +67,7 @@ type c05Fleet struct {
 		// txnid-reuse-after-empty-ls-txn (the commit is taken for LS's own and never uploaded). Excluded
 		// by construction - the instance is stepped to its next yield point first - and counted.
 		excludedTxnReuse int
+		budgetExhausted  int
 	}
 }
 
@@ -266,6 +268,16 @@ func (f *c05Fleet) step(i int, n int, until string) error {
 			return err
 		}
 		if y.Done {
+			if y.Err != nil && errors.Is(y.Err, fault.ErrInjected) {
+				// a storage operation failed more often than the retry budget allows: Sync gives up with an
+				// error, the process exits and its supervisor starts it again (LMDB kept)
+				f.stats.budgetExhausted++
+				if _, err := nd.Start(); err != nil {
+					return fmt.Errorf("restart of %s after Sync gave up (%v): %v", nd.Name, y.Err, err)
+				}
+				f.stats.restarts++
+				return f.replayLog(fmt.Sprintf("%s restarted after giving up", nd.Name))
+			}
 			return fmt.Errorf("sync loop of %s ended: %v", nd.Name, y.Err)
 		}
 		if err := f.replayLog(fmt.Sprintf("%s at %s", nd.Name, y.Point)); err != nil {
@@ -388,6 +400,7 @@ func checkC05(c C05Case, o *vcore.Obs) error {
 	}
 	o.NonTrivial((f.stats.emptiedRestart > 0 && f.stats.soleCopyAtRisk) || f.stats.cleanerDeletedNewest > 0)
 	f.excludedFindings(o)
+	o.ClassIf(f.stats.budgetExhausted > 0, "sync-gave-up-after-retry-budget-and-was-restarted")
 	o.ClassIf(f.stats.emptiedRestart > 0, "restart-with-emptied-lmdb")
 	o.ClassIf(f.stats.crashes > f.stats.emptiedRestart, "restart-with-kept-lmdb")
 	o.ClassIf(f.stats.cleanerDeletedNewest > 0, "cleaner-deleted-a-newest-snapshot")
@@ -429,6 +442,9 @@ func genC05(t *rapid.T) C05Case {
 		case "fault":
 			op.FKind = rapid.SampledFrom([]string{"list", "load", "store", "delete"}).Draw(t, "fkind")
 			nf := rapid.IntRange(1, 3).Draw(t, "nf")
+			if op.FKind == "store" && rapid.IntRange(0, 3).Draw(t, "exhaust") == 0 {
+				nf = rapid.IntRange(4, 6).Draw(t, "nf_exhaust") // retry budget (4) exhausted: Sync must give up, not pretend
+			}
 			for j := 0; j < nf; j++ {
 				kinds := []string{fault.Fail}
 				if op.FKind == "store" || op.FKind == "delete" {
@@ -527,12 +543,12 @@ type enumC05Clean struct {
 
 func TestC05CleanerEnum(t *testing.T) {
 	vcore.RunEnum(t, vcore.Config{Property: "C05", Inflight: true,
-		Rule: "fault enumeration: B publishes the only copy of k and then stays silent; A merges it, gets a local change and proceeds to upload; at EVERY yield point (14) of A's loop A's cleaner runs 8 days later (B is stale), then A crashes and restarts {kept, emptied}, with {0, 2} failing Store calls before; B's last snapshot may only disappear once A's upload containing k is in the bucket; invariants after every bucket mutation; non-trivial = the cleaner ran while the upload was in flight (send.* points)"},
+		Rule: "fault enumeration: B publishes the only copy of k and then stays silent; A merges it, gets a local change and proceeds to upload; at EVERY yield point (14) of A's loop A's cleaner runs 8 days later (B is stale), then A crashes and restarts {kept, emptied}, with {0, 2, 4 = retry budget exhausted: Sync gives up and is restarted} failing Store calls before; B's last snapshot may only disappear once A's upload containing k is in the bucket; invariants after every bucket mutation; non-trivial = the cleaner ran while the upload was in flight (send.* points)"},
 		func(yield func(enumC05Clean) bool) {
 			for _, native := range []bool{true, false} {
 				for _, p := range loopYieldPoints {
 					for _, keep := range []bool{true, false} {
-						for _, sf := range []int{0, 2} {
+						for _, sf := range []int{0, 2, 4} {
 							if !yield(enumC05Clean{Native: native, Point: p, Keep: keep, StoreFaults: sf}) {
 								return
 							}
